@@ -6,7 +6,7 @@ import itertools
 from .. import build, common, world
 from ..refs import coapwire as cw
 
-STYLES = ["piggy", "sepcon", "sepnon", "async"]
+STYLES = ["piggy", "sepcon", "sepnon", "async", "trigger"]
 METHODS = [1, 2, 3, 4, 5]
 
 
@@ -16,10 +16,17 @@ def setup(exe, seed, style, latency=5):
     sim.add_node(0)
     sim.add_node(1)
     sim.cmd("ep 1 udp 10.0.0.2:5683")
+    # "trigger": the server defers with an untimed async entry (delay 0) and answers when its
+    # application says so (coap_async_trigger()), here 700 ms after the request was taken
     cfg = {"piggy": "", "sepcon": "sep=40", "sepnon": "sep=40 rtype=1",
-           "async": "sep=900"}[style]
+           "async": "sep=900", "trigger": "sep=0"}[style]
     sim.cmd("res 1 %s body=fixed:%s %s" % (b"r".hex(), b"answer".hex(), cfg))
     sim.cmd("sess 0 0 udp 10.0.0.2:5683")
+    if style == "trigger":
+        def on_async(sm, ev):
+            if ev["e"] == "async" and ev.get("ok"):
+                sm.call_at(sm.now + 700, lambda s2: s2.cmd("trigger 1"))
+        sim.on_event.append(on_async)
     return w, sim
 
 
@@ -193,6 +200,35 @@ def judge(run, sim, reqs, fail_tokens, witness, stats, lossless, refused=()):
                 run.violation("non-response-delivery-count", w,
                               "token %s: %d response datagrams delivered to the client, "
                               "handler ran %d times" % (tok, delivered, nr))
+    # while the server application has deferred its answer (async entry pending), a repeated
+    # request is acknowledged again by the library and not handed to the handler a second time
+    # (a `req` event that follows a delivery with no timer step in between was caused by it)
+    sep = {"sepcon": 40, "sepnon": 40, "async": 900, "trigger": None}.get(witness.get("style"))
+    if witness.get("style") in ("sepcon", "sepnon", "async", "trigger"):
+        cause, pending = "timer", {}
+        for ev in sim.log:
+            k = ev["e"]
+            if k == "rx":
+                cause = "deliver"
+            elif k in ("timeout", "triggered"):
+                cause = "timer"
+            elif k == "async" and ev.get("ok") and ev.get("tok") is not None:
+                pending[ev["tok"]] = ev["t"]
+            elif k == "req" and ev.get("n") == 1 and ev["tok"] in pending:
+                if cause == "timer":
+                    del pending[ev["tok"]]          # the deferred call: answers now
+                elif sep is None or ev["t"] != pending[ev["tok"]] + sep:
+                    # the symptom the statement names: the client's handler called twice
+                    if len(rsp.get(ev["tok"], [])) > 1:
+                        run.violation("response-delivered-twice/repeated-request-handled-while-"
+                                      "response-deferred", dict(witness, token=ev["tok"]),
+                                      "token %s: the server application deferred its answer at "
+                                      "%d; a repeated request delivered at %d was handed to it "
+                                      "again, and the client's handler ran %d times" %
+                                      (ev["tok"], pending[ev["tok"]], ev["t"],
+                                       len(rsp[ev["tok"]])))
+                    del pending[ev["tok"]]
+        stats["deferred_exchanges"] = stats.get("deferred_exchanges", 0) + 1
     # every CON response delivered to the client is acknowledged (RST when the verdict is FAIL)
     for e in rx_client:
         b = bytes.fromhex(e["b"])
